@@ -125,7 +125,7 @@ theorem run_view : (v : View) → ∀ (f : Frame) (fs : List Frame) (pos : Posit
       have e : html true (.elem tag as c) pos =
           ('<' :: tag.toList ++ Html.attrsHtml (attrsOf as) ++ ['>']) ++
             ((if viewExists c then html true c .firstChild else []) ++ ('<' :: '/' :: tag.toList ++ ['>'])) := by
-        simp [html, isVoidT, hnv, escKids, hesc]
+        simp [html, isVoidT, hnv, escKids, hesc, kidsBody, hnta]
       rw [e, Html.run_append, hopen hchars hattrs, hstart, Option.bind_some, Html.run_append, hkidsRun,
         Option.bind_some, hclose]
       simp [dom, isVoidT, hnv]
